@@ -247,7 +247,15 @@ def check(ctx):
     ctx.check(kw["deserializer"].get("source") == kw["serializer"].get("target") and kw["deserializer"].get("target") == kw["serializer"].get("source"), "C05.R5", f"{an.qualname}:types", regs["deserializer"], "source / target of the two conversions are not swapped", an, an.node, detail="deserializer(source=name_cls, target=cls) / serializer(source=cls, target=name_cls)")
 
 
+    # ---------------- flag metadata: producers and consumers agree
+    ctx.rule("C05.R6", "flag metadata (default_as_set, flatten, required, ...): a consumer testing the truth of the stored value agrees with the placeholder stored by simple_metadata", floor=1)
+    from .common_flags import flag_metadata_rule
+    flag_metadata_rule(ctx, "C05.R6")
+
 def mutants(mb):
+    mb.add_text("flag-placeholder-none", "apischema/metadata/implem.py", "    return MetadataImplem({key: ...})\n", "    return MetadataImplem({key: None})\n", "C05.R6", "DEFAULT_AS_SET_METADATA")
+    mb.add_text("neg-flag-placeholder-true", "apischema/metadata/implem.py", "    return MetadataImplem({key: ...})\n", "    return MetadataImplem({key: True})\n", negative=True)
+    mb.add_text("neg-flag-tested-by-presence", "apischema/fields.py", "            if field.metadata.get(DEFAULT_AS_SET_METADATA):\n", "            if DEFAULT_AS_SET_METADATA in field.metadata:\n", negative=True)
     mb.add_text("as-names-by-value", "apischema/conversions/converters.py", "        return getattr(cls, name_elt.name)\n", "        return getattr(cls, name_elt)\n", "C05.R5", "deserializer")
     mb.add_text("is-aggregate-own-metadata", "apischema/objects/fields.py", "        return (\n            self.flattened\n            or self.additional_properties\n            or self.pattern_properties is not None\n        )", "        return FLATTEN_METADATA in self.metadata or PROPERTIES_METADATA in self.metadata", "C05.R4", "ObjectField")
     S = "apischema/std_types.py"
